@@ -198,13 +198,38 @@ def run(run):
             c = encryption.create_AES_cipher(secret)
             sock = encryption.EncryptedSocketWrapper(rec, c.encryptor(),
                                                      c.decryptor())
+        # a third of the sequences also contain writes that *fail* half-way
+        # (a field left unset): such a packet must raise, put nothing on the
+        # wire and leave the packets written after it undisturbed
+        broken_at = set(rng.sample(range(len(seq) + 1), min(
+            len(seq) + 1, rng.randrange(1, 3)))) if si % 3 == 1 else set()
+        w['failed_writes_at'] = sorted(broken_at)
+
+        def write_broken():
+            bad = cbp.PluginMessagePacket(context=ctx, channel='vf:broken',
+                                          data=None)
+            sent_before = len(rec.sent)
+            try:
+                bad.write(sock) if th is None else bad.write(sock, th)
+            except Exception:
+                run.count('failed_writes')
+                if len(rec.sent) != sent_before:
+                    run.violation('writer/failed-write-emitted-bytes', 'a '
+                                  'write that raised still sent bytes', w)
+                return
+            run.violation('writer/broken-packet-accepted', 'a packet with an '
+                          'unset field was written without error', w)
         try:
-            for item in seq:
+            for j, item in enumerate(seq):
+                if j in broken_at:
+                    write_broken()
                 p = real_packet(item)
                 if th is None:
                     p.write(sock)
                 else:
                     p.write(sock, th)
+            if len(seq) in broken_at:
+                write_broken()
         except Exception as e:
             run.violation('writer/raised:%s' % type(e).__name__,
                           'real writer raised', dict(w, error=repr(e)))
